@@ -93,7 +93,7 @@ def check(ctx) -> None:
     prog = ctx.prog
     pl = Pipeline(ctx)
     ctx.rule("C11-X1", "fallible calls of the per-row jobs are inside covering, non re-raising handlers", 5)
-    ctx.rule("C11-X2", "every such handler records a non-empty issue on the current row's record only", 5)
+    ctx.rule("C11-X2", "every such handler records a non-empty issue on the current row's record only", 3)
     ctx.rule("C11-X3", "a recorded issue blocks imputation before compounds are built", 3)
     ctx.rule("C11-X4", "the MCS stage never removes rows", 2)
     jobs = [
@@ -158,8 +158,14 @@ def check(ctx) -> None:
     raise_if = None
     for n in own_nodes(imp.node):
         if isinstance(n, ast.If) and any(isinstance(x, ast.Raise) for x in n.body):
-            t = unparse(n.test)
-            if "issue" in t and ('!= ""' in t or "!= ''" in t or t.strip() in ("issue",)):
+            from ..cfg import normal_compare
+
+            nc = normal_compare(n.test, True)
+            if nc is not None and nc[1] == "!=":
+                sides = [nc[0], nc[2]]
+                if any(isinstance(x, ast.Constant) and x.value == "" for x in sides) and any(isinstance(x, ast.Name) and "issue" in x.id for x in sides):
+                    raise_if = n
+            elif isinstance(n.test, ast.Name) and "issue" in n.test.id:
                 raise_if = n
     ok = raise_if is not None and all(icfg.dominates(icfg.node_of(raise_if), icfg.node_of(c)) for c in bc)
     src_ok = False
